@@ -118,6 +118,8 @@ def check_property(pid, tier, seed, procs, relock=False):
                   status=r["status"], paths=r.get("paths"), loops=r.get("loops"), obligations=len(r.get("obligations", [])),
                   discharged=sum(1 for o in r.get("obligations", []) if o["status"] == "discharged"),
                   solver_time_s=r.get("solver_time_s"), abstractions=r.get("abstractions"), callee_contracts=r.get("callee_contracts"))
+        if r["status"] == "crash":
+            continue
         if r["status"] != "ok":
             fn["reason"] = r.get("reason")
             undecided.append(dict(obligation=r["unit"], reason="%s: %s" % (r["status"], r.get("reason"))))
